@@ -96,3 +96,28 @@ Definition narrow_char_value (vs : list N) : Z :=
   | [v] => sext_spec 8 v
   | _ => sext_spec 32 (value_of_digits 256 vs)
   end.
+
+(* ---- numeric and universal escapes (C 6.4.4.4p5-7, 6.4.3).  `nxt` is the character that follows the
+   c-char in the literal (the closing quote after the last one): an octal escape takes at most three
+   digits and a hexadecimal escape all hex digits that follow (maximal munch), so a shorter octal escape
+   must not be followed by an octal digit and a hex escape not by a hex digit (nor by x/X after a lone 0,
+   which strtoull would read as a 0x prefix; excluded here for every hex escape).  Values must fit the
+   narrow character (6.4.4.4p9); a universal character name in a narrow literal must be ASCII. *)
+Inductive c_char_ext (nxt : N) : str -> N -> Prop :=
+| CE_basic sp v : c_char sp v -> c_char_ext nxt sp v
+| CE_oct cs ds : digit_seq 8 cs ds -> (1 <= length cs <= 3)%nat ->
+    ((length cs < 3)%nat -> forall d, ~ digit_char 8 nxt d) ->
+    value_of_digits 8 ds < 256 -> c_char_ext nxt (92 :: cs) (value_of_digits 8 ds)
+| CE_hex cs ds : digit_seq 16 cs ds -> cs <> [] ->
+    (forall d, ~ digit_char 16 nxt d) -> nxt <> 120 -> nxt <> 88 ->
+    value_of_digits 16 ds < 256 -> c_char_ext nxt (92 :: 120 :: cs) (value_of_digits 16 ds)
+| CE_u4 cs ds : digit_seq 16 cs ds -> length cs = 4%nat ->
+    value_of_digits 16 ds < 128 -> c_char_ext nxt (92 :: 117 :: cs) (value_of_digits 16 ds)
+| CE_u8 cs ds : digit_seq 16 cs ds -> length cs = 8%nat ->
+    value_of_digits 16 ds < 128 -> c_char_ext nxt (92 :: 85 :: cs) (value_of_digits 16 ds).
+
+Definition next_char (body : str) : N := match body with c :: _ => c | [] => 39 end.
+
+Inductive c_chars_ext : str -> list N -> Prop :=
+| CEs_nil : c_chars_ext [] []
+| CEs_cons sp v body vs : c_char_ext (next_char body) sp v -> c_chars_ext body vs -> c_chars_ext (sp ++ body) (v :: vs).
